@@ -38,11 +38,12 @@ const (
 	kReorgDeep
 	kRestore
 	kReopenRestore
+	kReactivated
 )
 
 var kindNames = map[int]string{kTip: "tip", kReorg: "reorg", kDeferred: "deferred", kOrphan: "orphan", kTemplate: "template",
 	kReopen: "reopen", kFork: "fork", kForkBad: "fork-failed-reorg", kReopenReorg: "reopen-reorg", kReopenDeferred: "reopen-deferred",
-	kOrphanReorg: "orphan-reorg", kHeaderFirst: "header-first", kHeaderFirstReorg: "header-first-reorg", kChildAfter: "child-after", kReorgDeep: "reorg-depth3", kRestore: "restore-from-journal", kReopenRestore: "reopen-restore-from-journal"}
+	kOrphanReorg: "orphan-reorg", kHeaderFirst: "header-first", kHeaderFirstReorg: "header-first-reorg", kChildAfter: "child-after", kReorgDeep: "reorg-depth3", kRestore: "restore-from-journal", kReopenRestore: "reopen-restore-from-journal", kReactivated: "reactivated"}
 
 const bigCache = 64 << 20
 
@@ -233,6 +234,11 @@ func mkPlan(cs *Case, idx int, atParent *refblock.State) *plan {
 	}
 	if !(wP.Cmp(wA2) <= 0 && wC.Cmp(wA2) <= 0 && wD.Cmp(wA2) > 0) {
 		pl.skip[kDeferred], pl.skip[kReopenDeferred] = true, true
+	}
+	// reactivated: A1 stays a side block next to the active parent, A2 overtakes,
+	// the candidate does not, its child does
+	if !(wA1.Cmp(wP) <= 0 && wA2.Cmp(wP) > 0 && wC.Cmp(wA2) <= 0 && wD.Cmp(wA2) > 0) {
+		pl.skip[kReactivated] = true
 	}
 	if len(pl.X) != 3 || !(wP.Cmp(workOf(pl.X[2])) <= 0 && wC.Cmp(workOf(pl.X[2])) > 0) {
 		pl.skip[kReorgDeep] = true
@@ -607,6 +613,31 @@ func runContext(pl *plan, k ctxSpec) (res result) {
 		}
 		if k.Kind == kReopenDeferred {
 			reopen()
+		}
+		if res.Fail == "" {
+			main, orphan, err := d.any(pl.D, false)
+			if valid && (err != nil || orphan || !main) {
+				d.failf("child of a valid candidate: ProcessBlock = (main=%v orphan=%v err=%v)", main, orphan, err)
+			}
+		}
+		if valid {
+			d.settle(cs, pl.D, true, true)
+		} else {
+			d.settle(cs, pl.A2, false, true)
+		}
+
+	case kReactivated:
+		// the candidate's branch was active once (its parent was validated as the
+		// tip), lost to A1<-A2, and comes back when the candidate's child arrives:
+		// the parent is re-attached as a block known to be valid
+		for _, b := range base {
+			d.valid(b, true)
+		}
+		d.valid(pl.A1, false)
+		d.valid(pl.A2, true)
+		cand(false)
+		if res.Fail == "" && d.best() != pl.A2.Hash {
+			d.failf("a side-branch block with equal work moved the best block")
 		}
 		if res.Fail == "" {
 			main, orphan, err := d.any(pl.D, false)
